@@ -14,9 +14,9 @@ func init() {
 		ID: "C14",
 		Explanation: "Decides the structural (for the data part: sufficient) condition of C14: (R-C14-1) every read or write of a field of db.kv or db.secret, and every operation on their maps, anywhere in package db, happens with db.DB.mu held (inter-procedural must-held lock sets; the constructor chain Open/openOrCreateKV/newKV is the tabled pre-publication region), with no double lock or unlock of an unheld mutex; " +
 			"(R-C14-2) within one db.DB operation the mutex is not released between state accesses (one critical section per operation); (R-C14-3) no reference to shared state leaves the critical section: values are copied out by string->[]byte conversion, results contain no *secret or map; " +
-			"(R-C14-4) server.Server is immutable after New and handlers write no package-level variable; (R-C14-5) the version reported with a value is the very key its bytes were read under.  With 1-3 every operation's whole interaction with shared state lies inside one critical section between its invocation and response, hence operations are linearizable w.r.t. what the sequential code computes (C02).",
+			"(R-C14-4) server.Server is immutable after New and handlers write no package-level variable; (R-C14-6) no function of acl, db, audit or server outside init writes memory rooted at a package-level variable (store, map update, delete) unless an exclusive Lock() precedes it on every path; (R-C14-7) audit.Writer, which concurrent requests enter without any lock, only invokes its sink and json.Encoder.Encode over that very sink, and its fields are assigned only by the constructor (anything else must follow an exclusive Lock()); (R-C14-5) the version reported with a value is the very key its bytes were read under.  With 1-3 every operation's whole interaction with shared state lies inside one critical section between its invocation and response, hence operations are linearizable w.r.t. what the sequential code computes (C02).",
 		NotDecided:  "Search over concurrent histories; the audit writer (called outside DB.mu in six of eight operations) is not part of the claim; the sequential semantics themselves (C02).",
-		Trusted:     commonTrusted,
+		Trusted:     append([]string{"json.Encoder.Encode marshals into a per-call buffer and issues a single Write on its target; on success it keeps no state between calls"}, commonTrusted...),
 		Assumptions: []string{"a single db.DB guards a kv (checked: kv is reachable only through DB.kv)", "calls through function values do not reach package db's private state"},
 		Run:         runC14,
 	})
@@ -224,6 +224,63 @@ func runC14(c *eng.Ctx, tier string) {
 
 	// R-C14-5 version/bytes pairing (shared with C09)
 	kvPairing(c, "R-C14-5")
+
+	// R-C14-6 package-level memory of the request path (acl, db, audit,
+	// server) is written only in init or under an exclusive lock
+	n6 := 0
+	for _, pkg := range []string{"acl", "db", "audit", "server"} {
+		for _, f := range p.PkgFuncs(pkg) {
+			if strings.HasPrefix(eng.Outer(f).Name(), "init") {
+				continue
+			}
+			eng.Instrs(f, func(in ssa.Instruction) {
+				var root ssa.Value
+				what := ""
+				switch x := in.(type) {
+				case *ssa.Store:
+					root, what = x.Addr, "store"
+				case *ssa.MapUpdate:
+					root, what = x.Map, "map update"
+				default:
+					if args, ok := eng.BuiltinCall(in, "delete"); ok {
+						root, what = args[0], "map delete"
+					} else {
+						return
+					}
+				}
+				g := globalRoot(root)
+				if g == nil || g.Pkg == nil || !strings.HasPrefix(g.Pkg.Pkg.Path(), "github.com/tailscale/setec") {
+					return
+				}
+				n6++
+				isLock := func(x ssa.Instruction) bool {
+					ci, ok := x.(ssa.CallInstruction)
+					if !ok {
+						return false
+					}
+					if _, isDefer := x.(*ssa.Defer); isDefer {
+						return false
+					}
+					return eng.CalleeIs(ci.Common(), "sync", "*Mutex.Lock") || eng.CalleeIs(ci.Common(), "sync", "*RWMutex.Lock")
+				}
+				hit, path := eng.Search(f, nil, nil, isLock, func(x ssa.Instruction) bool { return x == in })
+				c.Check(hit == nil, "R-C14-6", f, in.Pos(), what+" on package-level "+g.Name()+" in "+eng.FName(f), "memory reachable from a package-level variable is written after init only with an exclusive lock taken earlier on every path (a read lock does not exclude other writers)", func() string {
+					if hit == nil {
+						return ""
+					}
+					return "reached without Lock(): " + p.PathStr(path)
+				}())
+			})
+		}
+	}
+	if n6 == 0 {
+		c.Ok("R-C14-6", nil, 0, "writes through package-level variables in acl, db, audit, server outside init", "none")
+	}
+
+	// R-C14-7 the audit writer is entered by concurrent requests (checkAndLog
+	// logs before taking db.DB.mu): without a lock of its own it may only use
+	// operations that tolerate that
+	c14Audit(c)
 }
 
 func isStringType(t types.Type) bool {
@@ -291,5 +348,149 @@ func kvPairing(c *eng.Ctx, rule string) {
 	}
 	if n < 2 {
 		c.Undecided(rule, nil, 0, "construction of api.SecretValue in package db", "expected at least two sites (active value, specific version)")
+	}
+}
+
+
+// globalRoot follows field/index addressing and loads back to a package-level
+// variable, if the memory written is rooted at one.
+func globalRoot(v ssa.Value) *ssa.Global {
+	for i := 0; i < 12 && v != nil; i++ {
+		switch x := v.(type) {
+		case *ssa.Global:
+			return x
+		case *ssa.FieldAddr:
+			v = x.X
+		case *ssa.IndexAddr:
+			v = x.X
+		case *ssa.UnOp:
+			v = x.X
+		case *ssa.Lookup:
+			v = x.X
+		case *ssa.Slice:
+			v = x.X
+		case *ssa.ChangeType:
+			v = x.X
+		case *ssa.Phi:
+			for _, e := range x.Edges {
+				if g := globalRoot(e); g != nil {
+					return g
+				}
+			}
+			return nil
+		default:
+			o := eng.Origin(v)
+			if o == v {
+				return nil
+			}
+			v = o
+		}
+	}
+	return nil
+}
+
+
+func c14Audit(c *eng.Ctx) {
+	p := c.P
+	wr := p.Named("audit", "Writer")
+	if wr == nil {
+		c.Undecided("R-C14-7", nil, 0, "audit.Writer", "anchor does not resolve")
+		return
+	}
+	isLock := func(x ssa.Instruction) bool {
+		ci, ok := x.(ssa.CallInstruction)
+		if !ok {
+			return false
+		}
+		if _, isDefer := x.(*ssa.Defer); isDefer {
+			return false
+		}
+		return eng.CalleeIs(ci.Common(), "sync", "*Mutex.Lock") || eng.CalleeIs(ci.Common(), "sync", "*RWMutex.Lock")
+	}
+	locked := func(f *ssa.Function, in ssa.Instruction) bool {
+		hit, _ := eng.Search(f, nil, nil, isLock, func(x ssa.Instruction) bool { return x == in })
+		return hit == nil
+	}
+	fromWriterField := func(v ssa.Value) (string, bool) {
+		v = eng.Origin(v)
+		if ex, ok := v.(*ssa.Extract); ok {
+			if ta, isTA := ex.Tuple.(*ssa.TypeAssert); isTA {
+				v = eng.Origin(ta.X)
+			}
+		}
+		if ta, isTA := v.(*ssa.TypeAssert); isTA {
+			v = eng.Origin(ta.X)
+		}
+		fr, _, isF := eng.LoadedField(v)
+		if isF && eng.IsNamed(fr.Owner, "audit", "Writer") {
+			return fr.Name, true
+		}
+		return "", false
+	}
+	n := 0
+	var ctor []*ssa.Function
+	for _, f := range p.PkgFuncs("audit") {
+		recvIsWriter := f.Signature.Recv() != nil && eng.IsNamed(f.Signature.Recv().Type(), "audit", "Writer")
+		if !recvIsWriter {
+			// constructors: functions that build a Writer literal
+			eng.Instrs(f, func(in ssa.Instruction) {
+				if al, ok := in.(*ssa.Alloc); ok && eng.IsNamed(al.Type(), "audit", "Writer") {
+					ctor = append(ctor, f)
+				}
+			})
+			continue
+		}
+		for _, a := range eng.FieldAccesses(f) {
+			if a.Write && a.Kind == "store" && eng.IsNamed(a.Field.Owner, "audit", "Writer") {
+				n++
+				c.Check(locked(f, a.In), "R-C14-7", f, a.In.Pos(), "write of Writer."+a.Field.Name+" in "+eng.FName(f), "fields of audit.Writer are assigned only by its constructor (or under an exclusive lock of the Writer)", "unlocked store")
+			}
+		}
+		eng.Instrs(f, func(in ssa.Instruction) {
+			ci, ok := in.(ssa.CallInstruction)
+			if !ok {
+				return
+			}
+			cc := ci.Common()
+			var recv ssa.Value
+			if cc.IsInvoke() {
+				recv = cc.Value
+			} else if len(cc.Args) > 0 && cc.StaticCallee() != nil && cc.StaticCallee().Signature.Recv() != nil {
+				recv = cc.Args[0]
+			} else {
+				return
+			}
+			fld, isW := fromWriterField(recv)
+			if !isW {
+				return
+			}
+			n++
+			okk := cc.IsInvoke() || eng.CalleeIs(cc, "encoding/json", "*Encoder.Encode") || locked(f, in)
+			c.Check(okk, "R-C14-7", f, in.Pos(), eng.CallStr(cc)+" on Writer."+fld, "without a lock of its own the audit writer only invokes its sink (Write/Sync/Close of the io.Writer it was given) and json.Encoder.Encode, which issues one Write per entry; any other stateful helper (a bufio.Writer, a counter, a scratch buffer) shared by concurrent requests is a data race", "stateful operation on shared Writer state without an exclusive lock")
+		})
+	}
+	// the encoder writes straight to the sink
+	for _, f := range ctor {
+		var sinkVal ssa.Value
+		for _, a := range eng.FieldAccesses(f) {
+			if a.Kind == "store" && eng.IsNamed(a.Field.Owner, "audit", "Writer") {
+				if st, ok := a.In.(*ssa.Store); ok {
+					if _, isIface := st.Val.Type().Underlying().(*types.Interface); isIface {
+						sinkVal = st.Val
+					}
+				}
+			}
+		}
+		eng.Instrs(f, func(in ssa.Instruction) {
+			call, ok := in.(*ssa.Call)
+			if !ok || !eng.CalleeIs(&call.Call, "encoding/json", "NewEncoder") {
+				return
+			}
+			n++
+			c.Check(sinkVal != nil && eng.Same(call.Call.Args[0], sinkVal), "R-C14-7", f, in.Pos(), eng.CallStr(&call.Call), "the encoder writes directly to the sink the Writer was given (one Write per entry, nothing buffered between concurrent requests)", "encoder target "+eng.ValStr(call.Call.Args[0]))
+		})
+	}
+	if n < 3 {
+		c.Undecided("R-C14-7", nil, 0, "audit.Writer operations", "fewer than 3 sites found")
 	}
 }
